@@ -195,15 +195,23 @@ func HxNonConstErrReturns() Sel {
 			if !ok {
 				return
 			}
-			switch x := r.Results[ei].(type) {
-			case *ssa.Const:
-				return
-			case *ssa.UnOp:
-				if _, g := x.X.(*ssa.Global); g && x.Op == token.MUL {
+			// a merge of constants and package-level error variables (an inlined helper's
+			// result variable) is still not a propagated error
+			propagated := false
+			returnLeaf(r.Results[ei], map[ssa.Value]bool{}, func(v ssa.Value) {
+				switch x := v.(type) {
+				case *ssa.Const:
 					return
+				case *ssa.UnOp:
+					if _, g := x.X.(*ssa.Global); g && x.Op == token.MUL {
+						return
+					}
 				}
+				propagated = true
+			})
+			if propagated {
+				out = append(out, in)
 			}
-			out = append(out, in)
 		})
 		return out
 	}}
